@@ -85,6 +85,35 @@ Compile scheme (this is the trusted part: what is assumed about Python)
     raises=False, so any other raising operation is rejected.
   * `ignore:` statements of the spec entry are removed before compilation and listed in the generated header
     with the reason (an entry that matches nothing is an error).
+  Third round (swarm helpers, truncate, result queries, surrogate wrapper, signed costs, worst-case neighbours):
+  * object loops: `for x in xs: body` where xs is a list of values of a spec record type declared in `objects`
+    and the body assigns attributes of x (`x.a = e`, `x.a['k'] = e`, `x.a[j] = e`, `x.a[j] op= e`): the loop runs
+    over the value of xs at entry, x is a record variable rebound field by field, every pass appends the final x
+    to the accumulator `<xs>_done`, after the loop xs is rebound to the accumulator.  Valid when the members are
+    distinct objects (assumption printed in the generated header) and x cannot escape: every occurrence of x in
+    the body must be the root of an attribute path, the body must not touch xs, no `break` / `return`, not nested.
+    What is returned are the attribute *values*; sharing between attributes (`best_vector` being the same list
+    object as `vector`) is not represented, and storing a list into an attribute is rejected in a function that
+    also mutates lists in place.
+  * `xs[j] = e` / `xs[j] op= e` on a local list, `obj.attr op= e` and `obj.attr.append(e)` on record fields,
+    `xs.copy()` (= the value), `xs.reverse()`, `xs[:k]` for a natural number k (`List.take`),
+    `for s in [-1, 1]` (a display of integer literals), `sorted(xs, key=lambda x: e)` (a new list: `pyKeys` then
+    the stable sort; integer keys: `pySortInt`), `min(xs, key=lambda ..)` / `max(..)` (`pyMinBy` / `pyMaxBy`: one
+    scan, the first best member wins, empty list = ValueError, spec `sort: Int`),
+    `list(map(lambda x, y: e, xs, ys))` (`List.zipWith`, e must not raise), `a % b` on integers (`Int.fmod`, the
+    floored remainder of Python, guard b != 0), `-1 == x` emitted as `x = -1`.
+  * insertion-ordered dicts (`pyDict*` of the generated prelude): a dict is the list of its (key, value) items in
+    insertion order; it is built only by `{}` (= []) and `d[k] = v` (an existing key keeps its position and gets
+    the new value, a new key is appended at the end), so every key occurs in one item; `k in d` / `k not in d`,
+    `d[k]` (KeyError = none), `d[k].append(e)` (list values enter a dict only as fresh displays, so rebinding the
+    item is the mutation).  Keys are numbers; a dict that is a parameter cannot be assigned to.
+  * values that are `None` or a value: a local that is assigned `None` and a value is `Option`; `x == v` is
+    `x = some v`; string constants (spec option `strings`) are only compared for equality; `'k' in obj` /
+    `obj['k']` on a spec type through the accessors "in 'k'" and "['k']" (a template starting with `?` is
+    Option-valued: none = KeyError); a binding-table entry marked "partial" likewise.
+  * spec call handlers may add ghost / state updates (`("let", var, term)` in the prelude of an expression), a
+    spec module may declare record types (`prelude`, printed verbatim in the generated file), a generated module
+    may import another generated module whose functions it calls (regenerated first by --tie).
   Rejected: with, comprehensions, generator expressions other than any()/all(), lambda other than a sort key,
   nested def, `while` without fuel, `try` other than the oracle form, return inside a nested loop, for/else,
   while/else, chained comparison, chained assignment, assignment to a parameter, slices and negative indices
@@ -128,7 +157,7 @@ def bad(node, msg):
 
 # ----------------------------------------------------------------------------- types
 # atoms are strings ("Int", "Nat", "Rat", "Bool", "IntLit", a carrier such as "α", a spec type
-# such as "Ind"); ("List", T); ("Prod", (T, U, ...)); ("Option", T)
+# such as "Ind"); ("List", T); ("Prod", (T, U, ...)); ("Option", T); ("Dict", (K, V))
 
 NUMERIC = ("Int", "Nat", "Rat")
 TYPE_ALIAS = {}                  # spec type -> Lean type it is written as (`lean_types` of the current spec entry)
@@ -139,7 +168,7 @@ def has_unknown(t):
     if t == "?":
         return True
     if isinstance(t, tuple):
-        if t[0] == "Prod":
+        if t[0] in ("Prod", "Dict"):
             return any(has_unknown(x) for x in t[1])
         return has_unknown(t[1])
     return False
@@ -149,6 +178,8 @@ def tshow(t, top=True):
     if isinstance(t, str):
         if t in TYPE_ALIAS:
             return TYPE_ALIAS[t]
+        if t == "Str":
+            return "String"
         return "Int" if t == "IntLit" else t
     if t[0] == "List":
         s = "List " + tshow(t[1], False)
@@ -156,6 +187,8 @@ def tshow(t, top=True):
         s = "Option " + tshow(t[1], False)
     elif t[0] == "Prod":
         s = " × ".join(tshow(x, False) for x in t[1])
+    elif t[0] == "Dict":               # insertion-ordered dict = the list of its (key, value) items
+        s = "List (%s × %s)" % (tshow(t[1][0], False), tshow(t[1][1], False))
     else:
         raise ValueError(t)
     return s if top else "(" + s + ")"
@@ -603,7 +636,12 @@ class Fn:
                 pre, v, ty = self.expr(val, env2, env[x])
                 if pre:
                     return None
-                v = self.coerce(v, ty, env[x], a)
+                if env[x] == "IntLit" and ty in NUMERIC:
+                    # a variable that so far only received integer literals: retyped by the next typing pass
+                    self.observed.setdefault(x, []).append(ty)
+                    self.unresolved = True
+                else:
+                    v = self.coerce(v, ty, env[x], a)
                 self.observed.setdefault(x, []).append(env[x])
                 lets.append((x, v))
                 if x not in xs:
@@ -632,6 +670,8 @@ class Fn:
                 body = If(p[1], body, self.none(node))
             elif p[0] == "bind":
                 body = MatchOpt(p[2], p[1], body, self.none(node))
+            elif p[0] == "let":                   # a ghost / state update made by a call handler of the spec
+                body = Let(p[1], p[2], body)
             else:
                 raise ValueError(p)
         return body
@@ -1054,6 +1094,14 @@ class Fn:
             pre, v, ty = self.expr(value, env, hint)
         else:
             pre, v, ty = self.expr(ast.BinOp(left=tgt, op=op, right=value, lineno=st.lineno), env, hint)
+        if isinstance(hint, tuple) and hint[0] == "Option" and not (isinstance(ty, tuple) and ty[0] == "Option") \
+                and ty != "?":
+            # a variable that holds None or a value
+            if has_unknown(hint):
+                self.unresolved = True
+                v, ty = Tm("(some {0})", [v]), ("Option", ty)
+            else:
+                v, ty = self.coerce(v, ty, hint, st), hint
         self.observed.setdefault(x, []).append(ty)
         if has_unknown(ty) and self.vartype.get(x) and op is None:
             pre, v, ty = self.expr(value, env, self.vartype[x])     # e.g. `[]` / `[[]]` at the type found by the last pass
@@ -1063,7 +1111,39 @@ class Fn:
             v, ty = self.coerce(v, ty, self.vartype[x], st), self.vartype[x]
         return pre, v, ty
 
+    def dict_var(self, n, env):
+        """`d[k]` on a local variable that holds a dict of the translator -> (d, (K, V)) | None"""
+        if isinstance(n, ast.Subscript) and isinstance(n.value, ast.Name) and not isinstance(n.slice, ast.Slice):
+            d = n.value.id
+            if isinstance(env.get(d), tuple) and env[d][0] == "Dict":
+                if d in self.lean_param_names or d in self.vars:
+                    bad(n, "item assignment on a dict that is a parameter")
+                return d, env[d][1]
+        return None
+
     def assign(self, tgt, value, op, st, env, after):
+        dv = self.dict_var(tgt, env)
+        if dv is not None:
+            # d[k] = v on an insertion-ordered dict (`pyDictSet`); Python evaluates v, then d, then k
+            d, (kt, vt) = dv
+            if op is not None:
+                bad(st, "augmented assignment to a dict item")
+            if has_unknown(env[d]):
+                pk, k, tk = self.expr(tgt.slice, env)
+                pv, v, tv = self.expr(value, env)
+                self.observed.setdefault(d, []).append(("Dict", (tk, tv)))
+                self.unresolved = True
+                return after(env)
+            if isinstance(vt, tuple) and vt[0] == "List" and not isinstance(value, ast.List):
+                bad(st, "a list stored into a dict item other than a fresh list display (the item and the other name "
+                        "would share one list object)")
+            pv, v, tv = self.expr(value, env, vt)
+            v = self.coerce(v, tv, vt, st)
+            pk, k, tk = self.expr(tgt.slice, env, kt)
+            k = self.coerce(k, tk, kt, st)
+            pre = pv + pk
+            env2 = self.forget(self.learn(env, pre), [d])
+            return self.wrap(pre, Let(d, Tm("(pyDictSet {0} {1} {2})", [V(d), k, v]), after(env2)), st, env)
         ref = self.table_ref(tgt, env)
         if ref is not None:
             return self.assign_table(ref, value, op, st, env, after)
@@ -1075,10 +1155,39 @@ class Fn:
             fr = self.field_ref(tgt.value, env)
             if fr is not None:
                 return self.assign_field(fr, tgt, value, op, st, env, after, index=tgt.slice)
+        if isinstance(tgt, ast.Subscript) and isinstance(tgt.value, ast.Name) and not isinstance(tgt.slice, ast.Slice) \
+                and tgt.value.id in env and tgt.value.id not in self.lean_param_names and tgt.value.id not in self.vars:
+            er = self.elem_ref(tgt, env)
+            if er is not None:
+                # xs[i] = e / xs[i] op= e on a local list (rebinding xs; IndexError = none).  Python evaluates
+                # `xs[i] op= e` as: load xs[i], evaluate e, operate, store; `xs[i] = e` as: e, then the store
+                pre, x, get, put, ety = er
+                if has_unknown(ety):
+                    bad(st, "element assignment on a list whose element type is not known yet")
+                p2, v, ty = self.expr(value, env, ety)
+                if op is not None:
+                    t0 = self.tmp()
+                    pre = pre + [("bind", t0, get)] + p2
+                    v, ty = self.arith(op, V(t0), ety, v, ty, st)
+                    v = self.coerce(v, ty, ety, st)
+                    term, opt = put(v)
+                else:
+                    v = self.coerce(v, ty, ety, st)
+                    t0 = self.tmp()
+                    pre = p2 + pre + [("bind", t0, get)]         # the look-up succeeding = the index is in range
+                    term, opt = put(v)
+                env2 = self.forget(self.learn(env, pre), [x])
+                if opt:
+                    t2 = self.tmp()
+                    body = MatchOpt(term, t2, Let(x, V(t2), after(env2)), self.none(st))
+                else:
+                    body = Let(x, term, after(env2))
+                return self.wrap(pre, body, st, env)
         if ast.unparse(tgt) in self.fields:
             # attribute of the object that the spec represents as a record state variable
             if op is not None:
-                bad(st, "augmented assignment to a record field")
+                # `obj.attr op= e`  =  `obj.attr = obj.attr op e` (the attribute is read first)
+                value = ast.copy_location(ast.BinOp(left=tgt, op=op, right=value), st)
             rv, fld, fty = self.fields[ast.unparse(tgt)]
             pre, v, ty = self.expr(value, env, fty)
             v = self.coerce(v, ty, fty, st)
@@ -1086,7 +1195,10 @@ class Fn:
             return self.wrap(pre, Let(rv, Tm("{{ {0} with %s := {1} }}" % fld, [V(rv), v]), after(env2)), st, env)
         x = self.target_var(tgt, env)
         pre, v, ty = self.typed_value(x, value, tgt, op, st, env)
-        if x in env and env[x] != ty and env[x] != "IntLit":
+        if x in env and env[x] != ty and isinstance(env[x], tuple) and isinstance(ty, tuple) and env[x][0] == ty[0] \
+                and (has_unknown(env[x]) or has_unknown(ty)):
+            self.unresolved = True                # e.g. `xs = []` ... `xs = [e]`: the next typing pass knows the type
+        elif x in env and env[x] != ty and env[x] != "IntLit":
             bad(st, "variable changes type from %s to %s" % (tshow(env[x]), tshow(ty)))
         env2 = dict(self.forget(self.learn(env, pre), [x]))
         env2[x] = ty
@@ -1109,6 +1221,37 @@ class Fn:
                 pre = pre + [("bind", t, Tm("{0}[{1}]?", [V(tab), key]))] + p2
                 return self.wrap(pre, Let(tab, Tm("(List.set {0} {1} ({2} ++ [{3}]))", [V(tab), key, V(t), v]),
                                           after(self.forget(env, [tab]))), st, env)
+            if ast.unparse(f.value) in self.fields:
+                # obj.attr.append(e) on an attribute of the object that the spec represents as a record
+                rv, fld, fty = self.fields[ast.unparse(f.value)]
+                if not (isinstance(fty, tuple) and fty[0] == "List"):
+                    bad(st, "append on a record field that is not a list")
+                pre, v, ty = self.expr(call.args[0], env, fty[1])
+                v = self.coerce(v, ty, fty[1], st)
+                env2 = self.forget(self.learn(env, pre), [rv])
+                return self.wrap(pre, Let(rv, Tm("{{ {0} with %s := {0}.%s ++ [{1}] }}" % (fld, fld), [V(rv), v]),
+                                          after(env2)), st, env)
+            dv = self.dict_var(f.value, env)
+            if dv is not None:
+                # d[k].append(e): the item's value is a list (KeyError when there is no such item); valid as a rebinding
+                # of the item because list values enter a dict only as fresh displays (no other name for the list)
+                d, (kt, vt) = dv
+                if has_unknown(env[d]):
+                    pk, k, tk = self.expr(f.value.slice, env)
+                    p2, v, ty = self.expr(call.args[0], env)
+                    self.observed.setdefault(d, []).append(("Dict", (tk, ("List", ty))))
+                    self.unresolved = True
+                    return after(env)
+                if not (isinstance(vt, tuple) and vt[0] == "List"):
+                    bad(st, "append on a dict item that is not a list")
+                pk, k, tk = self.expr(f.value.slice, env, kt)
+                k = self.coerce(k, tk, kt, st)
+                p2, v, ty = self.expr(call.args[0], env, vt[1])
+                v = self.coerce(v, ty, vt[1], st)
+                t = self.tmp()
+                pre = pk + [("bind", t, Tm("(pyDictGet {0} {1})", [V(d), k]))] + p2
+                return self.wrap(pre, Let(d, Tm("(pyDictSet {0} {1} ({2} ++ [{3}]))", [V(d), k, V(t), v]),
+                                          after(self.forget(env, [d]))), st, env)
             ref = self.elem_ref(f.value, env)
             if ref is not None:
                 # xs[i].append(e) on a local list of lists
@@ -1196,7 +1339,7 @@ class Fn:
             return self.calls[key]["stmt"](self, st, env, after)
         bad(st, "call used as a statement")
 
-    def sort_key(self, lam, ety, env, node):
+    def sort_key(self, lam, ety, env, node, sorting=True):
         """`key=lambda x: e` of `xs.sort` / `sorted(xs)` on members of type `ety` -> (key function : α → Option κ,
         name of the stable ascending sort on the keyed members for the spec's `sort` type)"""
         if len(lam.args.args) != 1 or lam.args.defaults or lam.args.vararg or lam.args.kwarg:
@@ -1216,8 +1359,9 @@ class Fn:
             keyfn = Lam(lv, pk[0][2])
         else:
             keyfn = Lam(lv, self.wrap(pk, Tm("(some {0})", [kv]), node))
-        self.need("pyKeys")
-        self.need(sorter)
+        if sorting:
+            self.need("pyKeys")
+            self.need(sorter)
         return keyfn, sorter
 
     def delete(self, st, env, after):
@@ -1592,6 +1736,9 @@ class Fn:
             pre, v, ty = self.expr(n, env)
             if not (isinstance(ty, tuple) and ty[0] == "List"):
                 bad(n, "iteration over something that is not a list (type %s)" % tshow(ty))
+            if ty[1] == "IntLit":                      # `for s in [-1, 1]`: the members are integers
+                self.setlit(v, "Int", n)
+                ty = ("List", "Int")
             if isinstance(n, (ast.Name, ast.Attribute)) and not snapshot:
                 x = self.state.get(ast.unparse(n), (getattr(n, "id", None),))[0]
                 if x in self.mutated:
@@ -1697,8 +1844,12 @@ class Fn:
         evaluation order; a failing guard / `none` is the Python exception."""
         key = ast.unparse(n)
         if key in self.bind:
-            text, ty = self.bind[key]
-            return [], Tm(text.replace("{", "{{").replace("}", "}}"), fv=self.mentions(text)), ty
+            text, ty = self.bind[key][0], self.bind[key][1]
+            tm = Tm(text.replace("{", "{{").replace("}", "}}"), fv=self.mentions(text))
+            if len(self.bind[key]) > 2 and self.bind[key][2] == "partial":
+                t = self.tmp()                    # the Lean text is Option-valued: none = the expression raises
+                return [("bind", t, tm)], V(t), ty
+            return [], tm, ty
         if key in self.state:
             lv, ty = self.state[key]
             return [], V(lv), ty
@@ -1708,9 +1859,16 @@ class Fn:
         if isinstance(n, ast.Constant):
             v = n.value
             if v is None:
-                if isinstance(want, tuple) and want[0] == "Option":
+                if isinstance(want, tuple) and want[0] == "Option" and not has_unknown(want):
                     return [], C("(none : %s)" % tshow(want)), want
+                if want is None or (isinstance(want, tuple) and want[0] == "Option"):
+                    return [], C("none"), ("Option", "?")          # value type found by the next typing pass
                 bad(n, "None where the spec does not expect an optional value")
+            if isinstance(v, str) and self.s.get("strings"):
+                # a string constant: only compared for equality (spec option `strings`)
+                if '"' in v or "\\" in v or not v.isprintable():
+                    bad(n, "string constant with characters that would need escaping")
+                return [], C('"%s"' % v), "Str"
             if isinstance(v, bool):
                 return [], C("true" if v else "false"), "Bool"
             if isinstance(v, int):
@@ -1782,6 +1940,13 @@ class Fn:
                 pres += p
                 items.append(v)
             return pres, Tm("[" + ", ".join("{%d}" % i for i in range(len(items))) + "]", items), ("List", ty)
+        if isinstance(n, ast.Dict):
+            if n.keys:
+                bad(n, "dict display with items (only the empty dict `{}` is supported)")
+            self.need("pyDict")
+            if isinstance(want, tuple) and want[0] == "Dict" and not has_unknown(want):
+                return [], C("([] : %s)" % tshow(want)), want
+            return [], C("[]"), ("Dict", ("?", "?"))              # item types found by the next typing pass
         if isinstance(n, ast.Attribute):
             pre, b, tb = self.expr(n.value, env)
             v, ty = self.accessor(b, tb, "." + n.attr, n)
@@ -1816,8 +1981,13 @@ class Fn:
                 ty = "Nat"
                 self.setlit(a, ty, n)
                 self.setlit(b, ty, n)
+            if ty == "Int":
+                # Python's `%` on integers is the floored remainder (the sign of the divisor): Int.fmod
+                if not (isinstance(n.right, ast.Constant) and n.right.value != 0):
+                    pre = pre + [("guard", Op("≠", b, C("0")))]             # ZeroDivisionError
+                return pre, Tm("(Int.fmod {0} {1})", [a, b]), "Int"
             if ty != "Nat":
-                bad(n, "modulo on values that are not natural numbers")
+                bad(n, "modulo on values that are not integers")
             if not (isinstance(n.right, ast.Constant) and n.right.value != 0):
                 pre = pre + [("guard", Op("≠", b, C("0")))]             # ZeroDivisionError
             return pre, Op("%", a, b), "Nat"
@@ -1836,7 +2006,12 @@ class Fn:
         pre, b, tb = self.expr(n.value, env)
         sl = n.slice
         if isinstance(sl, ast.Constant) and isinstance(sl.value, str):
-            v, ty = self.accessor(b, tb, "[%r]" % sl.value, n)
+            acc = "[%r]" % sl.value
+            table = self.types.get(tb) if isinstance(tb, str) else None
+            if table is not None and acc in table and table[acc][0].startswith("?"):
+                t = self.tmp()                    # partial accessor (template after `?` is Option-valued): none = KeyError
+                return pre + [("bind", t, Tm(table[acc][0][1:], [b]))], V(t), table[acc][1]
+            v, ty = self.accessor(b, tb, acc, n)
             return pre, v, ty
         if isinstance(tb, str) and tb in self.types:
             acc = "[%s]" % ast.unparse(sl)
@@ -1873,6 +2048,14 @@ class Fn:
                     bad(n, "indexing a tuple longer than a pair")
                 return pre, Tm("{0}.%d" % (k + 1), [b]), tb[1][k]
             bad(n, "tuple index that is not a constant in range")
+        if isinstance(tb, tuple) and tb[0] == "Dict":
+            if has_unknown(tb):
+                self.unresolved = True
+                return pre, C("default"), "?"
+            p2, k, tk = self.expr(sl, env, tb[1][0])
+            k = self.coerce(k, tk, tb[1][0], n)
+            t = self.tmp()
+            return pre + p2 + [("bind", t, Tm("(pyDictGet {0} {1})", [b, k]))], V(t), tb[1][1]      # KeyError
         if isinstance(tb, tuple) and tb[0] == "List":
             p2, i, ti = self.expr(sl, env, "Nat" if not isinstance(sl, ast.UnaryOp) else "Int")
             t = self.tmp()
@@ -1907,6 +2090,48 @@ class Fn:
                 t = self.tmp()
                 return pre + [("bind", t, node)], V(t), c["ret"]
             return pre, node, c["ret"]
+        if key in ("min", "max") and len(n.args) == 1 and len(n.keywords) == 1 and n.keywords[0].arg == "key" \
+                and isinstance(n.keywords[0].value, ast.Lambda) and self.s.get("sort") == "Int":
+            # min(xs, key=lambda x: e) / max(...): CPython scans the list once, keeps the first member and replaces it
+            # when a later key is smaller (larger) - the first of several best members wins; empty list = ValueError,
+            # a raising key aborts (`pyMinBy` / `pyMaxBy`)
+            pre, xs, ty = self.expr(n.args[0], env)
+            if not (isinstance(ty, tuple) and ty[0] == "List"):
+                bad(n, "%s of something that is not a list" % key)
+            if has_unknown(ty):
+                self.unresolved = True
+                return pre, C("default"), "?"
+            keyfn, _ = self.sort_key(n.keywords[0].value, ty[1], env, n, False)
+            helper = "pyMinBy" if key == "min" else "pyMaxBy"
+            self.need("pyBestLoop")
+            self.need(helper)
+            t = self.tmp()
+            return pre + [("bind", t, Tm("(%s {0} {1})" % helper, [keyfn, xs]))], V(t), ty[1]
+        if key == "list" and len(n.args) == 1 and not n.keywords and isinstance(n.args[0], ast.Call) \
+                and ast.unparse(n.args[0].func) == "map" and len(n.args[0].args) == 3 and not n.args[0].keywords \
+                and isinstance(n.args[0].args[0], ast.Lambda):
+            # list(map(lambda x, y: e, xs, ys)): `map` stops at the shorter sequence = List.zipWith; the lambda body
+            # must not contain a raising operation (it would abort the whole call at that member)
+            lam, xs_n, ys_n = n.args[0].args
+            if len(lam.args.args) != 2 or lam.args.defaults or lam.args.vararg or lam.args.kwarg:
+                bad(n, "map with a lambda that does not take exactly two parameters")
+            p1, xs, tx = self.expr(xs_n, env)
+            p2, ys, ty_ = self.expr(ys_n, env)
+            for t in (tx, ty_):
+                if not (isinstance(t, tuple) and t[0] == "List") or has_unknown(t):
+                    bad(n, "map over something that is not a list")
+            a, b = lam.args.args[0].arg, lam.args.args[1].arg
+            if a == b or any(z in env or z in self.lean_param_names for z in (a, b)):
+                bad(n, "lambda parameter shadows a variable in scope")
+            env2 = dict(env)
+            env2[a], env2[b] = tx[1], ty_[1]
+            pb, body, tb = self.expr(lam.body, env2)
+            if pb:
+                bad(n, "raising operation inside the lambda of map")
+            if tb == "IntLit":
+                self.setlit(body, "Int", n)
+                tb = "Int"
+            return p1 + p2, Tm("(List.zipWith {0} {1} {2})", [Lam(a, Lam(b, body)), xs, ys]), ("List", tb)
         if key == "sorted" and len(n.args) == 1 and len(n.keywords) == 1 and n.keywords[0].arg == "key" \
                 and isinstance(n.keywords[0].value, ast.Lambda) and self.s.get("sort"):
             # sorted(xs, key=lambda x: e): a new list - all keys first (`pyKeys`, a raising key aborts), then the
@@ -1917,6 +2142,12 @@ class Fn:
             keyfn, sorter = self.sort_key(n.keywords[0].value, ty[1], env, n)
             t = self.tmp()
             return pre + [("bind", t, Tm("(pyKeys {0} {1})", [keyfn, xs]))], Tm("(%s {0})" % sorter, [V(t)]), ty
+        if isinstance(n.func, ast.Attribute) and n.func.attr == "copy" and not n.args and not n.keywords:
+            # xs.copy() on a list: a new list object with the same members = the same value (lists are values)
+            pre, v, ty = self.expr(n.func.value, env)
+            if not (isinstance(ty, tuple) and ty[0] == "List"):
+                bad(n, "copy() of something that is not a list")
+            return pre, v, ty
         if n.keywords:
             bad(n, "keyword arguments")
         if key in ("any", "all") and len(n.args) == 1 and isinstance(n.args[0], ast.GeneratorExp):
@@ -2017,8 +2248,34 @@ class Fn:
                     bad(n, "`is None` on a value that the spec does not declare optional")
                 c = Op("=", a, C("none"))
                 return p1, (c if isinstance(o, ast.Is) else Not(c))
+            if isinstance(o, (ast.In, ast.NotIn)) and isinstance(n.left, ast.Constant) and isinstance(n.left.value, str):
+                # `'key' in <value of a spec type>`: the accessor "in 'key'" of the type (a Bool template)
+                p2, b, tb = self.expr(n.comparators[0], env)
+                acc = "in %r" % n.left.value
+                table = self.types.get(tb) if isinstance(tb, str) else None
+                if table is None or acc not in table:
+                    bad(n, "membership test that the spec entry does not name")
+                c = Op("=", Tm(table[acc][0], [b]), C("true"))
+                return p2, (c if isinstance(o, ast.In) else Not(c))
             p1, a, ta = self.expr(n.left, env)
             p2, b, tb = self.expr(n.comparators[0], env)
+            if isinstance(o, (ast.Eq, ast.NotEq)) and isinstance(ta, tuple) and ta[0] == "Option" and has_unknown(ta):
+                self.unresolved = True            # typed by the next pass
+                return p1 + p2, C("True")
+            if isinstance(o, (ast.Eq, ast.NotEq)) and isinstance(ta, tuple) and ta[0] == "Option" and ta[1] == tb \
+                    and (tb in NUMERIC or tb in ("Bool", "Str")):
+                # `x == v` where x holds None or a value: None equals no value
+                c = Op("=", a, Tm("(some {0})", [b]))
+                return p1 + p2, (c if isinstance(o, ast.Eq) else Not(c))
+            if isinstance(o, (ast.In, ast.NotIn)):
+                if not (isinstance(tb, tuple) and tb[0] == "Dict"):
+                    bad(n, "`in` on something that is not a dict of the translator")
+                if has_unknown(tb):
+                    self.unresolved = True
+                    return p1 + p2, C("True")
+                a = self.coerce(a, ta, tb[1][0], n)
+                c = Tm("((pyDictHas {0} {1}) = true)", [b, a])
+                return p1 + p2, (c if isinstance(o, ast.In) else Not(c))
             if isinstance(o, (ast.Eq, ast.NotEq)) and ta == tb and ta in self.eqs:
                 c = Tm("(" + self.eqs[ta] + " = true)", [a, b], fv=self.mentions(self.eqs[ta]))
                 return p1 + p2, (c if isinstance(o, ast.Eq) else Not(c))
@@ -2027,11 +2284,13 @@ class Fn:
                 self.setlit(a, "Int", n)
                 self.setlit(b, "Int", n)
                 ty = "Int"
-            if isinstance(o, (ast.Eq, ast.NotEq)) and isinstance(n.left, ast.Constant) \
-                    and not isinstance(n.comparators[0], ast.Constant):
-                a, b = b, a                      # `1 == x` is emitted as `x = 1`
+            def is_lit(e):
+                return isinstance(e, ast.Constant) or (isinstance(e, ast.UnaryOp) and isinstance(e.op, ast.USub)
+                                                       and isinstance(e.operand, ast.Constant))
+            if isinstance(o, (ast.Eq, ast.NotEq)) and is_lit(n.left) and not is_lit(n.comparators[0]):
+                a, b = b, a                      # `1 == x` is emitted as `x = 1` (`-1 == x` as `x = -1`)
             if isinstance(o, (ast.Eq, ast.NotEq)):
-                if not (ty in NUMERIC or ty == "Bool" or ty in self.carrier):
+                if not (ty in NUMERIC or ty in ("Bool", "Str") or ty in self.carrier):
                     bad(n, "equality on values of type %s" % tshow(ty))
                 return p1 + p2, Op("=" if isinstance(o, ast.Eq) else "≠", a, b)
             if not (ty in NUMERIC or ty in self.carrier):
@@ -2072,6 +2331,36 @@ HELPERS = {
     "pySort": ("/-- `list.sort` on the keyed members: stable, ascending -/\n"
                "def pySort {α : Type} (kx : List (Rat × α)) : List α :=\n"
                "  (kx.mergeSort (fun a b => decide (a.1 ≤ b.1))).map (·.2)"),
+    "pyDict": ("/-- An insertion-ordered `dict` is the list of its (key, value) items in insertion order; it is only built by\n"
+               "`{}` (= `[]`) and `pyDictSet`, so every key occurs in one item.  `k in d`: -/\n"
+               "def pyDictHas {κ β : Type} [DecidableEq κ] (d : List (κ × β)) (k : κ) : Bool := d.any (fun e => decide (e.1 = k))\n\n"
+               "/-- `d[k]` (the value of the item with key `k`); `none` = KeyError -/\n"
+               "def pyDictGet {κ β : Type} [DecidableEq κ] (d : List (κ × β)) (k : κ) : Option β :=\n"
+               "  (d.find? (fun e => decide (e.1 = k))).map (·.2)\n\n"
+               "/-- `d[k] = v`: the item with key `k` keeps its position and gets the value `v`; a new key is appended -/\n"
+               "def pyDictSet {κ β : Type} [DecidableEq κ] (d : List (κ × β)) (k : κ) (v : β) : List (κ × β) :=\n"
+               "  if pyDictHas d k then d.map (fun e => if e.1 = k then (e.1, v) else e) else d ++ [(k, v)]"),
+    "pyBestLoop": ("/-- the scan of `min` / `max` with a key: `b` is the best member so far, `kb` its key -/\n"
+                   "def pyBestLoop {α : Type} (better : Int → Int → Bool) (key : α → Option Int) : List α → α → Int → Option α\n"
+                   "  | [], b, _ => some b\n"
+                   "  | x :: xs, b, kb =>\n"
+                   "    match key x with\n"
+                   "    | none => none\n"
+                   "    | some k => if better k kb then pyBestLoop better key xs x k else pyBestLoop better key xs b kb"),
+    "pyMinBy": ("/-- `min(xs, key=f)`: the first member with the smallest key; `none` = ValueError (empty) or the key raised -/\n"
+                "def pyMinBy {α : Type} (key : α → Option Int) : List α → Option α\n"
+                "  | [] => none\n"
+                "  | x :: xs =>\n"
+                "    match key x with\n"
+                "    | none => none\n"
+                "    | some k => pyBestLoop (fun k kb => decide (k < kb)) key xs x k"),
+    "pyMaxBy": ("/-- `max(xs, key=f)`: the first member with the largest key; `none` = ValueError (empty) or the key raised -/\n"
+                "def pyMaxBy {α : Type} (key : α → Option Int) : List α → Option α\n"
+                "  | [] => none\n"
+                "  | x :: xs =>\n"
+                "    match key x with\n"
+                "    | none => none\n"
+                "    | some k => pyBestLoop (fun k kb => decide (kb < k)) key xs x k"),
     "pySortInt": ("/-- `sorted` / `list.sort` on members keyed by integers: stable, ascending -/\n"
                   "def pySortInt {α : Type} (kx : List (Int × α)) : List α :=\n"
                   "  (kx.mergeSort (fun a b => decide (a.1 ≤ b.1))).map (·.2)"),
@@ -2155,7 +2444,10 @@ def normalise(fn, spec):
         if isinstance(n, ast.Call) and isinstance(n.func, ast.Attribute) and n.func.attr == "sort" \
                 and spec.get("sort") and len(n.keywords) == 1 and isinstance(n.keywords[0].value, ast.Lambda):
             ok_nodes.add(id(n.keywords[0].value))
-        if isinstance(n, ast.Call) and isinstance(n.func, ast.Name) and n.func.id == "sorted" \
+        if isinstance(n, ast.Call) and isinstance(n.func, ast.Name) and n.func.id == "map" and len(n.args) == 3 \
+                and isinstance(n.args[0], ast.Lambda) and not n.keywords:
+            ok_nodes.add(id(n.args[0]))               # only inside list(map(lambda x, y: .., xs, ys)), checked by the compiler
+        if isinstance(n, ast.Call) and isinstance(n.func, ast.Name) and n.func.id in ("sorted", "min", "max") \
                 and spec.get("sort") and len(n.keywords) == 1 and isinstance(n.keywords[0].value, ast.Lambda):
             ok_nodes.add(id(n.keywords[0].value))
     for n in ast.walk(fn):
@@ -2417,6 +2709,10 @@ def do_tie(name, repo, lean_dir):
     res = {"name": name, "generated": False, "tie_checks": False, "theorems": [], "source_blob": "",
            "serves": SPECS[name]["serves"], "detail": ""}
     try:
+        for imp in SPECS[name]["imports"]:
+            # a generated module that this one calls (e.g. Results -> Queries) is regenerated first
+            if imp.startswith("ArtapModel.Gen.") and imp.split(".")[-1] in SPECS:
+                do_gen(imp.split(".")[-1], repo, lean_dir)
         res["source_blob"] = do_gen(name, repo, lean_dir)
         res["generated"] = True
     except Unsupported as e:
